@@ -124,6 +124,13 @@ def std_sx(v):
 
 def sx(v):
     """val_to_sx extended with the stdlib types, recursively"""
+    if isinstance(v, P._CommentedValue):
+        return '(cmt %s (%s))' % (sx(v.value), pchars(v.comment))
+    if isinstance(v, P._TrailingCommentedValue):
+        return '(trl %s (%s))' % (sx(v.value), pchars(v.comment))
+    desc = getattr(v, '__verif_call__', None)
+    if desc is not None and not isinstance(v, Call):
+        return sx(desc())
     if isinstance(v, Call):
         return '(call %s (%s) (%s))' % (fn_sx(v.fn), ' '.join(sx(a) for a in v.args),
                                          ' '.join('((%s) %s)' % (DOCS.cps(k), sx(x)) for k, x in v.kwargs))
